@@ -152,7 +152,7 @@ Fixpoint generic_visit (E : env) (n : node) (nsib : node) (parents : list (node 
   end.
 
 Definition file_ctx (E : env) : ctx :=
-  Ctx NNone [] NNone [] [] (Some 0%Z) (Some 0%Z) None [0%Z; 1%Z]
+  Ctx NNone [] NNone [] [] (Some 0%Z) (Some 0%Z) None [0%Z]
       None None None None None None None (e_fname E) (e_lines E).
 
 Definition v_init (E : env) : vstate := VState [] [] ts_init (zero_scores (e_consts E)).
